@@ -87,17 +87,17 @@ def history_strategy(max_ops=30, backends=("fs", "fsc", "mem"), overrides=False,
                     v = sc[cls]
                 ov = None
                 if overrides and draw(st.integers(0, 3)) == 0:
-                    ov = draw(st.sampled_from(["ov/x", "ov/x", "ov/y", "deep/er/z", "runs/b#7/out"]))
+                    ov = draw(st.sampled_from(["ov/x", "ov/x", "ov/y", "deep/er/z", "runs/b#7/out", "ov/x[1]", "ov/*"]))
                 ops.append(["memoize", f, a, v] + ([ov] if ov else []))
             elif kind in ("read", "get", "is", "forget_call"):
                 ops.append([kind, f, a])
             elif kind == "list_mementos":
                 ops.append([kind, f, draw(st.sampled_from([None, None, 1, 2]))])
             elif kind == "write_meta":
-                ops.append([kind, f, a, draw(st.sampled_from(["log", "log", "k2", "st:fin"])),
+                ops.append([kind, f, a, draw(st.sampled_from(["log", "log", "k2", "st:fin", "a[1]", "q*?"])),
                             draw(st.binary(max_size=6)).hex()])
             elif kind == "read_meta":
-                ops.append([kind, f, a, draw(st.sampled_from(["log", "k2", "st:fin"]))])
+                ops.append([kind, f, a, draw(st.sampled_from(["log", "k2", "st:fin", "a[1]", "q*?"]))])
             elif kind in ("isall", "getmany"):
                 m = draw(st.integers(1, 3))
                 ops.append([kind, [list(draw(st.sampled_from(keypool))) for _ in range(m)]])
